@@ -756,7 +756,11 @@ class Engine:
                 extra.append(f)  # definitional instance stated at this point of the proof script
                 self.assumed.append("%s:inv%d:%s" % (self.fname, li.ordinal, name))
                 continue
-            if name.startswith("lemma-ground:"):
+            if name.startswith("from-lemmas:"):
+                # follows from the lemmas just proved and the quantifier-free facts alone
+                name = name[len("from-lemmas:"):]
+                p.pc = [h for h in base_pc if not _has_quantifier(h)] + extra
+            elif name.startswith("lemma-ground:"):
                 # intermediate assertion proved from the quantifier-free hypotheses only (fewer
                 # hypotheses = still sound); afterwards a hypothesis for the remaining clauses
                 p.pc = [h for h in base_pc + extra if not _has_quantifier(h)]
